@@ -1,11 +1,12 @@
 #!/bin/bash
 # usage: check.sh <property id> <quick|thorough>
 # Reads /repo's current working tree on every run (go/packages + go/ssa inside gocv); rebuilds gocv when its sources changed.
-# quick:    every obligation of the property, 10 s per obligation, first decisive solver.
+# quick:    every obligation of the property, 20 s per obligation (80 s for floating-point and regular-language goals), first decisive solver.
 # thorough: the same obligations with 60 s per obligation and every solver run on every obligation (they must agree),
 #           and afterwards the must-fail corpus of the property: each seeded change
 #           under /verif/seeded/<id>-*/ is applied to a scratch copy of the current tree and must be reported
-#           (result recorded in the evidence file under coverage.selftest; a missed seed is not a property violation).
+#           (result recorded in the evidence file under coverage.selftest; a missed seed is not a property violation),
+#           and the conformance suite of the verifier itself (gocv selftest).
 export GOFLAGS=-mod=mod GOPROXY=off GOSUMDB=off GOTOOLCHAIN=local
 cd /verif
 if [ ! -x /verif/bin/gocv ] || [ -n "$(find /verif/gocv -name '*.go' -newer /verif/bin/gocv 2>/dev/null | head -1)" ]; then
@@ -16,15 +17,19 @@ if [ "$tier" != thorough ]; then
   exec /verif/bin/gocv check -prop "$1" -tier "$tier"
 fi
 /verif/bin/gocv check -prop "$1" -tier thorough; rc=$?
+# conformance suite of the verifier itself (74 small functions, one language feature each; see selftest/engine)
+eng=$(/verif/bin/gocv selftest 2>&1 | grep -E "^MISMATCH|^selftest:" | sed 's/^/engine-selftest: /')
+echo "$eng"
 if ls -d /verif/seeded/$1-*/ >/dev/null 2>&1; then
   st=$(/verif/tools/selftest_seeds.sh "$1-*" 2>&1 | sed 's/^/selftest: /')
   echo "$st"
-  python3 - "$1" "$st" <<'PY'
+  python3 - "$1" "$st" "$eng" <<'PY'
 import json,sys
 p='/verif/evidence/%s.json'%sys.argv[1]
 try:
     ev=json.load(open(p))
     lines=[l for l in sys.argv[2].split('\n') if l.strip()]
+    ev.setdefault('coverage',{})['engine_selftest']=sys.argv[3] if len(sys.argv)>3 else ''
     ev.setdefault('coverage',{})['selftest']={'seeded_changes':len(lines),'detected':sum('detected' in l for l in lines),'missed':[l for l in lines if 'MISSED' in l],'skipped':sum('skipped' in l for l in lines)}
     json.dump(ev,open(p,'w'),indent=1)
 except Exception as e:
